@@ -13,6 +13,7 @@ case "$variant" in
   asan)   XF="-O1 -g1 -fsanitize=address -fno-omit-frame-pointer" ;;
   tsan)   XF="-O1 -g1 -fsanitize=thread" ;;
   rel)    XF="-O1 -g0 -DNDEBUG" ;;
+  relg)   XF="-O1 -g1 -DNDEBUG" ;;
   *) echo "unknown variant $variant" >&2; exit 2 ;;
 esac
 CXXFLAGS="-std=gnu++14 -ffp-contract=off -w -DSOPLEX_VERIF $XF"
